@@ -259,6 +259,32 @@ func oraclePoliciesFor(prop string, rng *rand.Rand, n int, unsafeOK bool) []*Pol
 	switch prop {
 	case "C04":
 		return []*PolicySpec{{Name: "__strict"}, {Name: "__ugc"}}
+	case "C03":
+		var out []*PolicySpec
+		els := []string{"a", "area", "base", "link", "blockquote", "del", "ins", "q", "audio", "embed", "iframe", "img", "input", "script", "source", "track", "video", "b"}
+		for i := 0; i < n; i++ {
+			ps := &PolicySpec{Ops: []Op{{Kind: "elements", Names: els}, {Kind: "attrs", Names: []string{"href", "src", "cite", "id"}, Scope: "G"}}}
+			for j := 0; j < 1+rng.Intn(5); j++ {
+				switch rng.Intn(7) {
+				case 0:
+					ps.Ops = append(ps.Ops, Op{Kind: "schemes", Names: pickN(rng, schemeVocab, 1+rng.Intn(3))})
+				case 1:
+					ps.Ops = append(ps.Ops, Op{Kind: "relative", B: rng.Intn(3) != 0})
+				case 2:
+					ps.Ops = append(ps.Ops, Op{Kind: pick(rng, []string{"nofollow", "nofollowfq", "noreferrer", "noreferrerfq", "targetblank"}), B: rng.Intn(2) == 0})
+				case 3:
+					ps.Ops = append(ps.Ops, Op{Kind: "parseable", B: rng.Intn(3) != 0})
+				case 4:
+					ps.Ops = append(ps.Ops, Op{Kind: "schemecustom", Scheme: pick(rng, []string{"http", "data"}), CB: pick(rng, []string{"always", "never", "hostex"})})
+				case 5:
+					ps.Ops = append(ps.Ops, Op{Kind: "schemesmatching", Re: pick(rng, []string{`^https?$`, `^(s|t)`})})
+				default:
+					ps.Ops = append(ps.Ops, Op{Kind: "schemes", Names: []string{"http", "https", "mailto"}})
+				}
+			}
+			out = append(out, ps)
+		}
+		return out
 	case "C11":
 		var out []*PolicySpec
 		for _, c := range linkGrid(rng, false) {
@@ -278,6 +304,21 @@ func docFor(prop string, g *docGen, rng *rand.Rand, ps *PolicySpec) string {
 	case "C05":
 		d, _ := g.document()
 		return d + pick(rng, []string{"", "<script>MARKS</script>", "<SCRIPT x=y>MARKS</SCRIPT>", "<style>MARKS</style>", "<svg><script>MARKS</script></svg>", "<script/>MARKS</script>", "<style/>MARKS</style>", "<script>MARKS", "<math><style>MARKS</style>", "<scrİpt>x</script>"})
+	case "C03":
+		var b strings.Builder
+		corpus := urlCorpus(rng, 3)
+		for i := 0; i < 1+rng.Intn(3); i++ {
+			el := pick(rng, []string{"a", "area", "base", "link", "blockquote", "del", "ins", "q", "audio", "embed", "iframe", "img", "input", "script", "source", "track", "video"})
+			key := "src"
+			switch el {
+			case "a", "area", "base", "link":
+				key = "href"
+			case "blockquote", "del", "ins", "q":
+				key = "cite"
+			}
+			b.WriteString("<" + el + " " + key + "=\"" + html.EscapeString(pick(rng, corpus)) + "\" id=\"i\">")
+		}
+		return b.String()
 	case "C11":
 		var b strings.Builder
 		for i := 0; i < 1+rng.Intn(3); i++ {
@@ -666,6 +707,90 @@ func oracleFor(prop string, fail func(oracleCase, string, map[string]any), sum *
 					}
 					if n == 0 {
 						fail(c, "iframe emitted with attributes lacks sandbox", map[string]any{"tag": t.String()})
+					}
+				}
+			}
+			return nt
+		}
+	case "C02":
+		return func(c oracleCase, v *specView) bool {
+			if v.unsafe {
+				return false
+			}
+			anyLink := false
+			for _, k := range []string{"nofollow", "nofollowfq", "noreferrer", "noreferrerfq", "targetblank"} {
+				if b, _ := v.flag(k); b {
+					anyLink = true
+				}
+			}
+			tb, _ := v.flag("targetblank")
+			co, _ := v.flag("crossorigin")
+			hasSandbox := false
+			for _, o := range c.ps.Ops {
+				if o.Kind == "sandbox" {
+					hasSandbox = true
+				}
+			}
+			explicit := func(el string) bool { return v.elems[el] }
+			nt := false
+			for _, t := range goTokens(c.gp.Sanitize(c.doc)) {
+				if t.Type != html.StartTagToken && t.Type != html.SelfClosingTagToken {
+					continue
+				}
+				if len(t.Attr) == 0 {
+					if !v.bareAllowed(t.Data) {
+						fail(c, "element emitted bare although it is not allowed without attributes: "+t.Data, nil)
+					}
+					continue
+				}
+				for _, a := range t.Attr {
+					nt = true
+					switch {
+					case a.Key == "rel" && anyLink, a.Key == "target" && tb, a.Key == "crossorigin" && co, a.Key == "sandbox" && hasSandbox && t.Data == "iframe":
+						continue
+					}
+					if v.dataAttrs && strings.HasPrefix(a.Key, "data-") && len(a.Key) > 5 {
+						rest := a.Key[5:]
+						if !strings.HasPrefix(rest, "xml") && !strings.ContainsAny(rest, "ABCDEFGHIJKLMNOPQRSTUVWXYZ;") {
+							continue
+						}
+					}
+					justified := false
+					for _, o := range c.ps.Ops {
+						applies := false
+						switch o.Scope {
+						case "G":
+							applies = true
+						case "E":
+							for _, e := range o.ScopeEls {
+								if strings.ToLower(e) == t.Data {
+									applies = true
+								}
+							}
+						case "M":
+							applies = !explicit(t.Data) && getRx(o.ScopeRe).re.MatchString(t.Data)
+						}
+						if !applies {
+							continue
+						}
+						if o.Kind == "styles" && a.Key == "style" {
+							justified = true
+						}
+						if o.Kind == "attrs" {
+							for _, n := range o.Names {
+								if strings.ToLower(n) != a.Key {
+									continue
+								}
+								if o.Re == "" || urlPosition(t.Data, a.Key) || a.Key == "rel" || a.Key == "target" || a.Key == "crossorigin" || a.Key == "sandbox" {
+									justified = true
+								} else if getRx(o.Re).re.MatchString(a.Val) {
+									justified = true
+								}
+							}
+						}
+					}
+					if !justified {
+						fail(c, fmt.Sprintf("attribute %s on %s is not justified by any rule (value %q)", a.Key, t.Data, a.Val), map[string]any{"tag": t.String()})
 					}
 				}
 			}
